@@ -540,7 +540,7 @@ def fam_struct(R, idx):
     """Struct ports in and out, field reads and writes, nested structs, packed arrays in structs."""
     ctx = Ctx(R)
     w = R.choice([8, 32, 33, 7])
-    kind = idx % 6
+    kind = idx % 7
     g = ["@bitstruct\nclass In1:\n  a: Bits%d\n  b: Bits4\n" % w,
          "@bitstruct\nclass Pt:\n  x: Bits%d\n  y: Bits%d\n" % (w, w),
          "@bitstruct\nclass Mix:\n  hd: Bits3\n  pts: [ Pt ] * 2\n  arr: [ Bits%d ] * 3\n  tl: In1\n" % w]
@@ -566,6 +566,14 @@ def fam_struct(R, idx):
         return ("struct_k%d_w%d" % (kind, w),
                 _emit(ctx, [_block("up", body),
                             _block("upff", ["s.r <<= s.m2"], ff=True)], decl))
+    elif kind == 6:
+        # struct-typed constants: free variable, component attribute, constructor with literals, connected constant
+        m = (1 << w) - 1
+        ctx.globals_.append("KPT = Pt( %d, %d )\n" % (lit(R, w), lit(R, w)))
+        decl += ["s.kk = Pt( %d, %d )" % (lit(R, w), lit(R, w)), "s.o = OutPort( Pt )", "s.o8 = OutPort( Pt )", "s.o9 = OutPort( In1 )",
+                 "s.o9 //= In1( %d, %d )" % (lit(R, w), lit(R, 4)), "s.ox = OutPort( Bits%d )" % w]
+        body = ["if s.sel:\n  s.o @= KPT\nelse:\n  s.o @= s.kk", "s.o8 @= Pt( %d, %d ) if s.p.x[0] else s.p" % (lit(R, w), m),
+                "s.ox @= s.kk.y ^ s.p.x"]
     elif kind == 3:
         decl += ["s.o = [ OutPort( Pt ) for _ in range(2) ]", "s.o4 = OutPort( Bits%d )" % w]
         body = ["for i in range(2):\n  s.o[i] @= s.m.pts[1-i]", "t = s.m.tl\ns.o4 @= t.a + s.m.arr[0]"]
@@ -712,7 +720,7 @@ def fam_misc(R, idx):
 # --------------------------------------------------------------------------------------
 
 ND_CONSTRUCTS = ["port", "wire", "pfield", "pfwire", "pftmp", "sfield", "ifc", "ifcnest", "ifcport", "comp", "comphet",
-                 "compifc", "constarr"]
+                 "compifc", "compport", "ffwire", "constarr"]
 ND_DIMS = {1: [(3,), (4,)], 2: [(2, 3), (3, 2)], 3: [(2, 3, 2), (3, 2, 2), (2, 2, 3)]}
 
 
@@ -761,6 +769,7 @@ class _NDBase:
     writable = True         # has an output side
     modes = "clvn"          # access modes: constant / loop-variable / signal index in update blocks, connect
     connect_fn = False      # connect( a, b ) instead of a //= b
+    ff = False              # written in update_ff blocks
 
     def __init__(s, ctx, dims, w):
         s.ctx, s.dims, s.w, s.N = ctx, dims, w, _prod(dims)
@@ -797,6 +806,12 @@ class _NDWire(_NDPort):
 
     def decl_int(s, name):
         return s._arr(name, "Wire")
+
+
+class _NDFFWire(_NDWire):
+    """array of registers: written in update_ff blocks, read combinationally"""
+    ff = True
+    modes = "clv"
 
 
 class _NDPField(_NDBase):
@@ -1025,6 +1040,24 @@ class _NDCompIfc(_NDBase):
         return "s.%s%s.ii[%s].msg" % (name, _sub(ix[:-1]), ix[-1])
 
 
+class _NDCompPort(_NDCompIfc):
+    """array of sub-components with arrays of ports: s.c[i].in_[j]"""
+
+    def __init__(s, ctx, dims, w):
+        _NDBase.__init__(s, ctx, dims, w)
+        s.odims, s.idim = dims[:-1], dims[-1]
+        ctx.globals_.append("class NSubI( Component ):\n  def construct( s ):\n    s.in_ = [ InPort( Bits%d ) for _ in range(%d) ]\n"
+                            "    s.out = [ OutPort( Bits%d ) for _ in range(%d) ]\n    @update\n    def up():\n"
+                            "      for j in range(%d):\n        s.out[j] @= s.in_[j] + ( j + 1 )\n"
+                            % (w, s.idim, w, s.idim, s.idim))
+
+    def rd(s, name, ix):
+        return "s.%s%s.out[%s]" % (name, _sub(ix[:-1]), ix[-1])
+
+    def wr(s, name, ix):
+        return "s.%s%s.in_[%s]" % (name, _sub(ix[:-1]), ix[-1])
+
+
 class _NDConstArr(_NDBase):
     """n-dimensional list of constants (the back ends accept constant indices only)"""
     writable = False
@@ -1043,8 +1076,10 @@ class _NDConstArr(_NDBase):
 
 _ND_CLS = {"port": _NDPort, "wire": _NDWire, "pfield": _NDPField, "pfwire": _NDPFWire, "pftmp": _NDPFTmp, "sfield": _NDSField,
            "ifc": _NDIfc, "ifcnest": _NDIfcNest, "ifcport": _NDIfcPort, "comp": _NDComp, "comphet": _NDCompHet,
-           "compifc": _NDCompIfc, "constarr": _NDConstArr}
+           "compifc": _NDCompIfc, "compport": _NDCompPort, "ffwire": _NDFFWire, "constarr": _NDConstArr}
 _LOOPV = ["i", "j", "k"]
+# access modes as they appear in violation keys (update-block modes share the prefix "ub-")
+MODE = {"c": "ub-const", "l": "ub-loop", "v": "ub-var", "n": "connect"}
 
 
 def nd_design(R, cons, nd):
@@ -1105,16 +1140,21 @@ def nd_design(R, cons, nd):
             for ix in es:
                 decl.append(conn("s.rn[%d]" % _flat(dims, ix), C.rd(inst, ix)))
 
+    def wblock(name, stmts):
+        if C.ff:
+            stmts = [st.replace(" @= ", " <<= ") for st in stmts]
+        blocks.append(_block(name, stmts, ff=C.ff))
+
     def writer(inst, mode):
         fe = _flat_expr(dims, lv)
         if mode == "c":
-            blocks.append(_block("up_wc", ["%s @= s.fi[%d] + %d" % (C.wr(inst, ix), _flat(dims, ix), cst(_flat(dims, ix) + 3)) for ix in es]
-                                 + C.post_wr(inst, mode)))
+            wblock("up_wc", ["%s @= s.fi[%d] + %d" % (C.wr(inst, ix), _flat(dims, ix), cst(_flat(dims, ix) + 3)) for ix in es]
+                   + C.post_wr(inst, mode))
         elif mode == "l":
-            blocks.append(_block("up_wl", [loops(["%s @= s.fi[%s] + ( %s )" % (C.wr(inst, lv), fe, fe)])] + C.post_wr(inst, mode)))
+            wblock("up_wl", [loops(["%s @= s.fi[%s] + ( %s )" % (C.wr(inst, lv), fe, fe)])] + C.post_wr(inst, mode))
         elif mode == "v":
-            blocks.append(_block("up_wv", ["%s @= %d" % (C.wr(inst, ix), cst(_flat(dims, ix) + 5)) for ix in es]
-                                 + guarded("%s @= s.fi[0]" % C.wr(inst, sel), "") + C.post_wr(inst, mode)))
+            wblock("up_wv", ["%s @= %d" % (C.wr(inst, ix), cst(_flat(dims, ix) + 5)) for ix in es]
+                   + guarded("%s @= s.fi[0]" % C.wr(inst, sel), "") + C.post_wr(inst, mode))
         else:
             for ix in es:
                 decl.append(conn(C.wr(inst, ix), "s.fi[%d]" % _flat(dims, ix)))
@@ -1123,18 +1163,22 @@ def nd_design(R, cons, nd):
     modes = C.modes
     if C.internal:
         for m, rm in zip("clvn", "lcnv"):
+            if m not in C.modes:
+                continue
             decl += C.decl_int("w" + m)
+            sigs["w" + m] = "%s.wr.%s" % (tag, MODE[m])
             writer("w" + m, m)
-            reader("w" + m, rm, "%s.wr.%s+rd.%s" % (tag, m, rm))
+            reader("w" + m, rm, "%s.wr.%s+rd.%s" % (tag, MODE[m], MODE[rm]))
     else:
         if C.readable:
             decl += C.decl_in("a")
+            sigs["a"] = "%s.in" % tag
             for m in modes:
-                reader("a", m, "%s.rd.%s" % (tag, m))
+                reader("a", m, "%s.rd.%s" % (tag, MODE[m]))
         if C.writable:
             for m in modes:
                 decl += C.decl_out("o" + m)
-                sigs["o" + m] = "%s.wr.%s" % (tag, m)
+                sigs["o" + m] = "%s.wr.%s" % (tag, MODE[m])
                 writer("o" + m, m)
     xd, xb, xs = C.extra()
     decl += [d for d in xd if d not in decl]
@@ -1152,7 +1196,7 @@ def fam_nd(R, idx):
 
 # range forms: (name, range text with %(n)d = number of elements; every value is < n)
 LV_FORMS = [("asc", "range( %(n)d )"), ("asc2", "range( 2, %(n)d )"), ("step2", "range( 0, %(n)d, 2 )"),
-            ("step3", "range( 1, %(n)d, 3 )"), ("desc", "range( %(m)d, 1, -1 )"), ("desc0", "range( %(m)d, -1, -1 )"),
+            ("step3", "range( 1, %(n)d, 3 )"), ("desc", "range( %(m)d, 1, -1 )"), ("desc1", "range( %(m)d, 0, -1 )"),
             ("descstep", "range( %(m)d, 0, -2 )"), ("nested", None)]
 # uses of the loop variable: (name, output kind, statement); kinds: a<w> = array of n Bits<w> (element i written),
 # v = Bits<n> vector (bit i written), w = Bits<4n> vector (slice i written)
@@ -1171,7 +1215,7 @@ LV_USES = [
     ("ge",     "v",  "s.o_ge[i] @= i >= s.b"),
     ("shr",    "a8", "s.o_shr[i] @= s.a >> i"),
     ("shl",    "a8", "s.o_shl[i] @= s.a << i"),
-    ("lshift", "a8", "s.o_lshift[i] @= Bits8( i ) << s.b"),
+    ("lshift", "a8", "s.o_lshift[i] @= Bits8( i ) << zext( s.b[0:2], 8 )"),
     ("castk",  "ak", "s.o_castk[i] @= Bits%(k)d( i )"),
     ("cast8",  "a8", "s.o_cast8[i] @= Bits8( i )"),
     ("castop", "a8", "s.o_castop[i] @= s.a + zext( Bits%(k)d( i ), 8 )"),
@@ -1191,12 +1235,12 @@ def fam_lv(R, idx):
     extensions, slice bounds) under every range form (ascending, offset, stepped, descending, nested)."""
     ctx = Ctx(R)
     form, rtxt = LV_FORMS[idx % len(LV_FORMS)]
-    n = 8 if form in ("desc", "descstep") or R.random() < 0.6 else 6
+    n = 8 if form.startswith("desc") or R.random() < 0.6 else 6
     k = clog2(n)
     sigs = {}
     if form == "nested":
         a, b = R.choice([(2, 3), (3, 2), (3, 4)])
-        jr = R.choice(["range( %d )" % b, "range( %d, -1, -1 )" % (b - 1), "range( %d, 0, -1 )" % (b - 1)])
+        jr = R.choice(["range( %d )" % b, "range( %d, 0, -1 )" % (b - 1), "range( 1, %d )" % b])
         decl = ["s.a = InPort( Bits8 )", "s.x = [ [ InPort( Bits8 ) for _ in range(%d) ] for _ in range(%d) ]" % (b, a),
                 "s.big = InPort( Bits%d )" % (a * b * 2)]
         outs = {"nidx": "s.o_nidx[i][j] @= s.x[i][j] + ( i*%d + j )" % b,
@@ -1204,7 +1248,7 @@ def fam_lv(R, idx):
                 "nshift": "s.o_nshift[i][j] @= ( s.a >> i ) << j",
                 "ncast": "s.o_ncast[i][j] @= zext( Bits2( i ), 8 ) + zext( Bits3( j ), 8 )",
                 "nslice": "s.o_nslice[i][j] @= zext( s.big[ i*%d + j*2 : i*%d + j*2 + 2 ], 8 )" % (2 * b, 2 * b),
-                "ncmp": "s.o_ncmp[i][j] @= zext( i < j, 8 ) + zext( s.a[0:2] == i, 8 )"}
+                "ncmp": "s.o_ncmp[i][j] @= s.a if s.a[0:2] == i else s.x[i][j] - j"}
         body = []
         for nm, st in outs.items():
             if nm == "nflat":
@@ -1254,4 +1298,8 @@ def design(family, index, seed_tag=""):
     if sigs:
         for c in _CTXS:
             sigs.update(c.tmpsigs)
-    return "gen:%s:%d:%s" % (family, index, name), src, {"family": family, "shape": name, "sigs": sigs}
+    meta = {"family": family, "shape": name, "sigs": sigs}
+    if family in ("nd", "lv"):
+        meta["nowidth"] = True          # the key of a failing output is family + shape class, without widths
+        meta["nocross"] = True          # C12: no second validation of the SystemVerilog text (C03 validates it)
+    return "gen:%s:%d:%s" % (family, index, name), src, meta
